@@ -40,9 +40,12 @@ def check(ctx):
     # actor whose parent is still inside ActorOf must not be handled before OnLaunch (defect repaired by /repo bde59a1)
     return K.check(ctx, "C03", ["C03:", "kernel:"], "DESIGN.md §6 C03",
                    extra_subs=[{"pkg": "c01turns", "sub": "turns", "kinds": ["C03:turns:"], "args": ["-n", "800"]},
-                               {"pkg": "c03launch", "sub": "launch", "kinds": ["C03:launch:"], "coq": False}],
+                               {"pkg": "c03launch", "sub": "launch", "kinds": ["C03:launch:"], "coq": False},
+                               # C09's persistence harness, run here for its C03 monitor only: a recovering incarnation handles
+                               # its OnLaunch before the replayed snapshot and events
+                               {"pkg": "c09persist", "sub": "persist", "kinds": ["C03:persist:"], "coq": False}],
                    extra_trusted=TURNS_TRUSTED, extra_dirs=["C01"])
 
 
 def replay(ctx, path):
-    return K.replay(ctx, path, extra_pkgs={"turns": "c01turns", "launch": "c03launch"})
+    return K.replay(ctx, path, extra_pkgs={"turns": "c01turns", "launch": "c03launch", "persist": "c09persist"})
